@@ -1,5 +1,5 @@
 import GopModel.Model.TplParse
--- import GopModel.Model.TplCompile
+import GopModel.Model.TplCompile
 import GopModel.Driver.Util
 /-!
 Line protocol of `drv_tplfront` (C31, C27).
@@ -127,6 +127,87 @@ def handleTplPrint (fields : List String) : String :=
   match readExprs (ws.length + 1) ws with
   | some ([e], []) =>
     dashIfEmpty (",".intercalate ((printE e).map fun t => toString t.kind ++ ":" ++ hexField t.lit))
+  | _ => "bad-input"
+
+/-! ### tplnew -/
+
+/-- `c<hexlit>=E | c<hexlit>=<v>.<mb>.<tailEmpty>` and `s<hexlit>=E | s<hexlit>=<hex>` -/
+structure UnqTab where
+  chars : List (Bytes × CharUnq)
+  strs : List (Bytes × Option Bytes)
+
+def readUnqEntry (t : UnqTab) (w : String) : Option UnqTab :=
+  match ((w.drop 1).toString).splitOn "=" with
+  | [h, res] => do
+    let lit ← bytesOfHex h
+    if w.take 1 == "c" then
+      if res = "E" then pure { t with chars := (lit, .err) :: t.chars }
+      else match res.splitOn "." with
+        | [v, mb, te] => do
+          let v ← v.toNat?
+          pure { t with chars := (lit, .ok v (mb == "1") (te == "1")) :: t.chars }
+        | _ => none
+    else if w.take 1 == "s" then
+      if res = "E" then pure { t with strs := (lit, none) :: t.strs }
+      else do
+        let v ← bytesOfHex res
+        pure { t with strs := (lit, some v) :: t.strs }
+    else none
+  | _ => none
+
+def readUnqTab (field : String) : Option UnqTab :=
+  (splitList (if field = "-" then "" else field) ",").foldlM readUnqEntry ⟨[], []⟩
+
+def UnqTab.toUnq (t : UnqTab) : Unq where
+  char := fun lit => ((t.chars.find? (·.1 = lit)).map (·.2)).getD .err
+  str := fun lit => ((t.strs.find? (·.1 = lit)).map (·.2)).getD none
+
+def showItems (fs : List FItem) : String :=
+  dashIfEmpty ("+".intercalate (fs.map fun
+    | .tok t => "t" ++ toString t
+    | .mt t l => "m" ++ toString t ++ ":" ++ hexField l))
+
+def showConflicts (cs : List Conflict) : String :=
+  dashIfEmpty (",".intercalate (cs.map fun c =>
+    toString c.i ++ "/" ++ toString c.at ++ "/" ++ showItems c.me ++ "/" ++ showItems c.next))
+
+def showCErr : CErr → String
+  | .dupRule n => "dup:" ++ hexField n
+  | .undefined n => "undef:" ++ hexField n
+  | .invalidLit l => "badlit:" ++ hexField l
+  | .invalidTok l => "badtok:" ++ hexField l
+  | .invalidOp => "badop"
+  | .assigned n => "assigned:" ++ hexField n
+  | .recursive n => "rec:" ++ hexField n
+
+def showNewRes : NewRes → String
+  | .parseErr => "PARSEERR"
+  | .ok cs => "ok " ++ showConflicts cs
+  | .noDoc => "NODOC"
+  | .errs es cs => "err " ++ ",".intercalate (es.map showCErr) ++ " " ++ showConflicts cs
+  | .panic => "PANIC"
+  | .oof => "OUTOFFUEL"
+
+/-- `tplnew <eofpos>;<toks>;<scanErrs>;<unq>` -/
+def handleTplNew (fields : List String) : String :=
+  match (fields.headD "").splitOn ";" with
+  | [eof, toks, nerr, unq] =>
+    match readToks eof toks, nerr.toNat?, readUnqTab unq with
+    | some (_, ts), some n, some tab => showNewRes (tplNew tab.toUnq (ts.map (·.tok)) n)
+    | _, _, _ => "bad-input"
+  | _ => "bad-input"
+
+/-- `tplcl <eofpos>;<toks>;<unq>`: `cl.NewEx` on whatever the parser returned (errors ignored); used only
+to exercise the model's panic branches against the real compiler. -/
+def handleTplCl (fields : List String) : String :=
+  match (fields.headD "").splitOn ";" with
+  | [eof, toks, unq] =>
+    match readToks eof toks, readUnqTab unq with
+    | some (_, ts), some tab =>
+      match parseFile (ts.map (·.tok)) with
+      | none => "OUTOFFUEL"
+      | some r => showNewRes (newEx tab.toUnq r.rules)
+    | _, _ => "bad-input"
   | _ => "bad-input"
 
 end GopModel.Driver
